@@ -30,10 +30,10 @@ def run(ck):
     m = ck.repo.mod(REL)
     meths = m.methods("interval")
     ck.rule("R1", "the bound list is bound only by __init__/cannon and never mutated in place", floor=3)
-    ck.rule("R2", "set-valued operations return a canonicalised object", floor=6)
-    ck.rule("R3", "construction canonicalises unconditionally", floor=4)
-    ck.rule("R4", "every consumer of cmp_interval handles every class it can return", floor=3)
-    ck.rule("R5", "equality, hull, length and integer membership read the canonical list as such", floor=4)
+    ck.rule("R2", "set-valued operations return a canonicalised object", floor=3)
+    ck.rule("R3", "construction canonicalises unconditionally", floor=2)
+    ck.rule("R4", "every consumer of cmp_interval handles every class it can return", floor=1)
+    ck.rule("R5", "equality, hull, length and integer membership read the canonical list as such", floor=2)
     _adjacency_rules(ck, m, meths)
     ck.rule("R7", "closed bounds: a pairing of two members is abandoned only on a strict `hi < lo`", floor=1)
     closed_bound_rules(ck, "R7")
@@ -191,7 +191,7 @@ def _adjacency_rules(ck, m, meths):
     rewrites the last output interval) only on cmp_interval's verdict with both adjacency classes among the accepted ones, or on a
     direct bound comparison that is at least as permissive as start <= stop + 1."""
     from sa.astutil import linear, less_than
-    ck.rule("R6", "adjacent intervals fuse: the classifier's +1 tests and every fusion decision of cannon_list allow distance one", floor=5)
+    ck.rule("R6", "adjacent intervals fuse: the classifier's +1 tests and every fusion decision of cannon_list allow distance one", floor=2)
     ci = m.func("cmp_interval")
     tests = [n.test for n in walk_body(ci) if isinstance(n, ast.If)]
     # name roles from the unpacking  a_start, a_stop = inter1
